@@ -121,6 +121,29 @@ module Little =
   | D9 d0 -> D9 (succ_double d0)
  end
 
+(** val add : nat -> nat -> nat **)
+
+let rec add n0 m =
+  match n0 with
+  | O -> m
+  | S p -> S (add p m)
+
+(** val mul : nat -> nat -> nat **)
+
+let rec mul n0 m =
+  match n0 with
+  | O -> O
+  | S p -> add m (mul p m)
+
+(** val sub : nat -> nat -> nat **)
+
+let rec sub n0 m =
+  match n0 with
+  | O -> n0
+  | S k -> (match m with
+            | O -> n0
+            | S l -> sub k l)
+
 type positive =
 | XI of positive
 | XO of positive
@@ -146,6 +169,37 @@ module type UsualOrderedTypeFull =
 
 module Nat =
  struct
+  (** val pred : nat -> nat **)
+
+  let pred n0 = match n0 with
+  | O -> n0
+  | S u -> u
+
+  (** val eqb : nat -> nat -> bool **)
+
+  let rec eqb n0 m =
+    match n0 with
+    | O -> (match m with
+            | O -> true
+            | S _ -> false)
+    | S n' -> (match m with
+               | O -> false
+               | S m' -> eqb n' m')
+
+  (** val leb : nat -> nat -> bool **)
+
+  let rec leb n0 m =
+    match n0 with
+    | O -> true
+    | S n' -> (match m with
+               | O -> false
+               | S m' -> leb n' m')
+
+  (** val ltb : nat -> nat -> bool **)
+
+  let ltb n0 m =
+    leb (S n0) m
+
   (** val compare : nat -> nat -> comparison **)
 
   let rec compare n0 m =
@@ -156,6 +210,24 @@ module Nat =
     | S n' -> (match m with
                | O -> Gt
                | S m' -> compare n' m')
+
+  (** val max : nat -> nat -> nat **)
+
+  let rec max n0 m =
+    match n0 with
+    | O -> m
+    | S n' -> (match m with
+               | O -> n0
+               | S m' -> S (max n' m'))
+
+  (** val min : nat -> nat -> nat **)
+
+  let rec min n0 m =
+    match n0 with
+    | O -> O
+    | S n' -> (match m with
+               | O -> O
+               | S m' -> S (min n' m'))
  end
 
 module Pos =
@@ -578,6 +650,16 @@ let rec nth n0 l default =
             | [] -> default
             | _ :: t0 -> nth m t0 default)
 
+(** val nth_error : 'a1 list -> nat -> 'a1 option **)
+
+let rec nth_error l = function
+| O -> (match l with
+        | [] -> None
+        | x :: _ -> Some x)
+| S n1 -> (match l with
+           | [] -> None
+           | _ :: l0 -> nth_error l0 n1)
+
 (** val last : 'a1 list -> 'a1 -> 'a1 **)
 
 let rec last l d =
@@ -599,12 +681,30 @@ let rec map f = function
 | [] -> []
 | a :: t0 -> (f a) :: (map f t0)
 
+(** val flat_map : ('a1 -> 'a2 list) -> 'a1 list -> 'a2 list **)
+
+let rec flat_map f = function
+| [] -> []
+| x :: t0 -> app (f x) (flat_map f t0)
+
 (** val fold_left : ('a1 -> 'a2 -> 'a1) -> 'a2 list -> 'a1 -> 'a1 **)
 
 let rec fold_left f l a0 =
   match l with
   | [] -> a0
   | b :: t0 -> fold_left f t0 (f a0 b)
+
+(** val fold_right : ('a2 -> 'a1 -> 'a1) -> 'a1 -> 'a2 list -> 'a1 **)
+
+let rec fold_right f a0 = function
+| [] -> a0
+| b :: t0 -> f b (fold_right f a0 t0)
+
+(** val existsb : ('a1 -> bool) -> 'a1 list -> bool **)
+
+let rec existsb f = function
+| [] -> false
+| a :: l0 -> (||) (f a) (existsb f l0)
 
 (** val forallb : ('a1 -> bool) -> 'a1 list -> bool **)
 
@@ -617,6 +717,40 @@ let rec forallb f = function
 let rec filter f = function
 | [] -> []
 | x :: l0 -> if f x then x :: (filter f l0) else filter f l0
+
+(** val combine : 'a1 list -> 'a2 list -> ('a1 * 'a2) list **)
+
+let rec combine l l' =
+  match l with
+  | [] -> []
+  | x :: tl ->
+    (match l' with
+     | [] -> []
+     | y :: tl' -> (x, y) :: (combine tl tl'))
+
+(** val firstn : nat -> 'a1 list -> 'a1 list **)
+
+let rec firstn n0 l =
+  match n0 with
+  | O -> []
+  | S n1 -> (match l with
+             | [] -> []
+             | a :: l0 -> a :: (firstn n1 l0))
+
+(** val skipn : nat -> 'a1 list -> 'a1 list **)
+
+let rec skipn n0 l =
+  match n0 with
+  | O -> l
+  | S n1 -> (match l with
+             | [] -> []
+             | _ :: l0 -> skipn n1 l0)
+
+(** val seq : nat -> nat -> nat list **)
+
+let rec seq start = function
+| O -> []
+| S len0 -> start :: (seq (S start) len0)
 
 module Z =
  struct
@@ -649,6 +783,13 @@ module Z =
     | Zneg p -> (match y with
                  | Zneg q -> Coq_Pos.eqb p q
                  | _ -> false)
+
+  (** val max : z -> z -> z **)
+
+  let max n0 m =
+    match compare n0 m with
+    | Lt -> m
+    | _ -> n0
 
   (** val eq_dec : z -> z -> bool **)
 
@@ -817,7 +958,8 @@ let sv_parse s =
                 (match parse_u32 b with
                  | Inl mi ->
                    (match parse_u32 c with
-                    | Inl pa -> ParseOk { major = ma; minor = mi; patch = pa }
+                    | Inl pa0 ->
+                      ParseOk { major = ma; minor = mi; patch = pa0 }
                     | Inr e -> ParseIntError (s, c, e))
                  | Inr e -> ParseIntError (s, b, e))
               | Inr e -> ParseIntError (s, a, e))
@@ -2030,3 +2172,1250 @@ let run ops =
   fold_left (fun prov o ->
     add_dependencies prov (fst (fst o)) (snd (fst o)) (snd o)) ops
     empty_provider
+
+type pkg0 = n
+
+type ('vS, 'vr) kind =
+| KNotRoot of pkg0 * 'vr
+| KNoVersions of pkg0 * 'vS
+| KFromDep of pkg0 * 'vS * pkg0 * 'vS
+| KDerived of nat * nat
+| KCustom of pkg0 * 'vS * n
+
+type ('vS, 'vr) incompat = { terms : (pkg0 * 'vS term) list;
+                             ikind : ('vS, 'vr) kind }
+
+(** val get : pkg0 -> (pkg0 * 'a1) list -> 'a1 option **)
+
+let rec get p = function
+| [] -> None
+| p0 :: r -> let (q, a) = p0 in if N.eqb p q then Some a else get p r
+
+(** val remove : pkg0 -> (pkg0 * 'a1) list -> (pkg0 * 'a1) list **)
+
+let rec remove p = function
+| [] -> []
+| p0 :: r ->
+  let (q, a) = p0 in if N.eqb p q then remove p r else (q, a) :: (remove p r)
+
+(** val set : pkg0 -> 'a1 -> (pkg0 * 'a1) list -> (pkg0 * 'a1) list **)
+
+let rec set p a = function
+| [] -> (p, a) :: []
+| p0 :: r ->
+  let (q, b) = p0 in if N.eqb p q then (p, a) :: r else (q, b) :: (set p a r)
+
+(** val not_root : ('a1, 'a2) vSOps -> pkg0 -> 'a2 -> ('a1, 'a2) incompat **)
+
+let not_root o p v =
+  { terms = ((p, (Neg (o.vs_singleton v))) :: []); ikind = (KNotRoot (p, v)) }
+
+(** val no_versions : pkg0 -> 'a1 term -> ('a1, 'a2) incompat option **)
+
+let no_versions p t0 = match t0 with
+| Pos r -> Some { terms = ((p, t0) :: []); ikind = (KNoVersions (p, r)) }
+| Neg _ -> None
+
+(** val custom_version :
+    ('a1, 'a2) vSOps -> pkg0 -> 'a2 -> n -> ('a1, 'a2) incompat **)
+
+let custom_version o p v m =
+  let s = o.vs_singleton v in
+  { terms = ((p, (Pos s)) :: []); ikind = (KCustom (p, s, m)) }
+
+(** val from_dependency :
+    ('a1, 'a2) vSOps -> pkg0 -> 'a1 -> (pkg0 * 'a1) -> ('a1, 'a2) incompat **)
+
+let from_dependency o p versions0 = function
+| (p2, set3) ->
+  { terms =
+    (if o.vs_eqb set3 o.vs_empty
+     then (p, (Pos versions0)) :: []
+     else if N.eqb p p2
+          then (p, (Pos
+                 (o.vs_intersection versions0 (o.vs_complement set3)))) :: []
+          else (p, (Pos versions0)) :: ((p2, (Neg set3)) :: [])); ikind =
+    (KFromDep (p, versions0, p2, set3)) }
+
+(** val as_dependency : ('a1, 'a2) incompat -> (pkg0 * pkg0) option **)
+
+let as_dependency i =
+  match i.ikind with
+  | KFromDep (p1, _, p2, _) -> Some (p1, p2)
+  | _ -> None
+
+(** val opt_term_eqb :
+    ('a1, 'a2) vSOps -> 'a1 term option -> 'a1 term option -> bool **)
+
+let opt_term_eqb o a b =
+  match a with
+  | Some x -> (match b with
+               | Some y -> t_eqb o x y
+               | None -> false)
+  | None -> (match b with
+             | Some _ -> false
+             | None -> true)
+
+type panic_site =
+| PIndexMissing
+| PGetUnwrap
+| PSatisfierUnreachable
+| PSatisfierCauseNone
+| PMustBeDecision
+| PMustExist
+| PDerivationAfterDecision
+| PDecisionNoDerivations
+| PDecisionAlready
+| PDecisionNotContained
+| PDecisionChangedAssert
+| PExtractDerivation
+| PNoVersionsNegative
+| PSplitOne
+| PUnwrapPositive
+| PUnwrapNegative
+| PTreeMissing
+| PBacktrackEmpty
+| PAnyTerm
+
+type 'a res =
+| Good of 'a
+| Panic of panic_site
+
+(** val bind : 'a1 res -> ('a1 -> 'a2 res) -> 'a2 res **)
+
+let bind r f =
+  match r with
+  | Good a -> f a
+  | Panic s -> Panic s
+
+(** val unwrap_positive : 'a1 term -> 'a1 res **)
+
+let unwrap_positive = function
+| Pos s -> Good s
+| Neg _ -> Panic PUnwrapPositive
+
+(** val unwrap_negative : 'a1 term -> 'a1 res **)
+
+let unwrap_negative = function
+| Pos _ -> Panic PUnwrapNegative
+| Neg s -> Good s
+
+(** val req : 'a1 option -> panic_site -> 'a1 res **)
+
+let req o s =
+  match o with
+  | Some a -> Good a
+  | None -> Panic s
+
+(** val merge_dependents :
+    ('a1, 'a2) vSOps -> ('a1, 'a2) incompat -> ('a1, 'a2) incompat -> ('a1,
+    'a2) incompat option res **)
+
+let merge_dependents o self other =
+  match as_dependency self with
+  | Some p ->
+    let (p1, p2) = p in
+    (match as_dependency other with
+     | Some p0 ->
+       let (q1, q2) = p0 in
+       if negb ((&&) (N.eqb p1 q1) (N.eqb p2 q2))
+       then Good None
+       else if N.eqb p1 p2
+            then Good None
+            else let dep_term = get p2 self.terms in
+                 if negb (opt_term_eqb o dep_term (get p2 other.terms))
+                 then Good None
+                 else bind (req (get p1 self.terms) PGetUnwrap) (fun t1 ->
+                        bind (req (get p1 other.terms) PGetUnwrap) (fun t2 ->
+                          bind (unwrap_positive t1) (fun s1 ->
+                            bind (unwrap_positive t2) (fun s2 ->
+                              bind
+                                (match dep_term with
+                                 | Some t0 -> unwrap_negative t0
+                                 | None -> Good o.vs_empty) (fun dset -> Good
+                                (Some
+                                (from_dependency o p1 (o.vs_union s1 s2) (p2,
+                                  dset))))))))
+     | None -> Good None)
+  | None -> Good None
+
+(** val merge_terms :
+    ('a1, 'a2) vSOps -> (pkg0 * 'a1 term) list -> (pkg0 * 'a1 term) list ->
+    (pkg0 * 'a1 term) list **)
+
+let rec merge_terms o m = function
+| [] -> m
+| p :: r ->
+  let (q, t2) = p in
+  merge_terms o
+    (match get q m with
+     | Some t1 -> set q (t_intersection o t1 t2) m
+     | None -> app m ((q, t2) :: [])) r
+
+(** val prior_cause :
+    ('a1, 'a2) vSOps -> nat -> nat -> (pkg0 * 'a1 term) list -> (pkg0 * 'a1
+    term) list -> pkg0 -> ('a1, 'a2) incompat res **)
+
+let prior_cause o i j ti tj p =
+  bind (req (get p ti) PSplitOne) (fun t1 ->
+    bind (req (get p tj) PGetUnwrap) (fun t2 ->
+      let rest = merge_terms o (remove p ti) (remove p tj) in
+      let t0 = t_union o t1 t2 in
+      Good { terms = (if t_eqb o t0 (t_any o) then rest else set p t0 rest);
+      ikind = (KDerived (i, j)) }))
+
+(** val is_terminal :
+    ('a1, 'a2) vSOps -> ('a1, 'a2) incompat -> pkg0 -> 'a2 -> bool **)
+
+let is_terminal o i root0 rootv0 =
+  match i.terms with
+  | [] -> true
+  | p0 :: l ->
+    let (p, t0) = p0 in
+    (match l with
+     | [] -> (&&) (N.eqb p root0) (t_contains o t0 rootv0)
+     | _ :: _ -> false)
+
+type 'vS dated = { d_gidx : nat; d_level : nat; d_cause : nat;
+                   d_accum : 'vS term }
+
+type ('vS, 'vr) assign_inter =
+| ADecision of nat * 'vr * 'vS term
+| ADerivations of 'vS term
+
+type ('vS, 'vr) pa = { smallest : nat; highest : nat;
+                       derivs : 'vS dated list; ai : ('vS, 'vr) assign_inter }
+
+(** val ai_term : ('a1, 'a2) assign_inter -> 'a1 term **)
+
+let ai_term = function
+| ADecision (_, _, t0) -> t0
+| ADerivations t0 -> t0
+
+type ('vS, 'vr) psol = { next_gidx : nat; level : nat;
+                         assignments : (pkg0 * ('vS, 'vr) pa) list;
+                         queue : (pkg0 * z) list; changed : nat;
+                         backtracked : bool }
+
+(** val ps_empty : ('a1, 'a2) psol **)
+
+let ps_empty =
+  { next_gidx = O; level = O; assignments = []; queue = []; changed = O;
+    backtracked = false }
+
+(** val term_for : ('a1, 'a2) psol -> pkg0 -> 'a1 term option **)
+
+let term_for ps0 p =
+  option_map (fun a -> ai_term a.ai) (get p ps0.assignments)
+
+(** val index_of :
+    pkg0 -> (pkg0 * ('a1, 'a2) pa) list -> nat -> nat option **)
+
+let rec index_of p m i =
+  match m with
+  | [] -> None
+  | p0 :: r ->
+    let (q, _) = p0 in if N.eqb p q then Some i else index_of p r (S i)
+
+(** val swap_indices : 'a1 list -> nat -> nat -> 'a1 list **)
+
+let swap_indices l i j =
+  match nth_error l i with
+  | Some a ->
+    (match nth_error l j with
+     | Some b ->
+       map (fun pat ->
+         let (k, x) = pat in
+         if Nat.eqb k i then b else if Nat.eqb k j then a else x)
+         (combine (seq O (length l)) l)
+     | None -> l)
+  | None -> l
+
+type rel =
+| RSatisfied
+| RContradicted
+| RAlmost of pkg0
+| RInconclusive
+
+(** val relation_scan :
+    ('a1, 'a2) vSOps -> (pkg0 * 'a1 term) list -> (pkg0 -> 'a1 term option)
+    -> pkg0 list -> pkg0 list option **)
+
+let rec relation_scan o ts lookup incs =
+  match ts with
+  | [] -> Some incs
+  | p0 :: r ->
+    let (p, t0) = p0 in
+    (match option_map (t_relation_with o t0) (lookup p) with
+     | Some r0 ->
+       (match r0 with
+        | Satisfied -> relation_scan o r lookup incs
+        | Contradicted -> None
+        | Inconclusive -> relation_scan o r lookup (app incs (p :: [])))
+     | None -> relation_scan o r lookup (app incs (p :: [])))
+
+(** val relation0 :
+    ('a1, 'a2) vSOps -> (pkg0 * 'a1 term) list -> (pkg0 -> 'a1 term option)
+    -> rel **)
+
+let relation0 o ts lookup =
+  match relation_scan o ts lookup [] with
+  | Some l ->
+    (match l with
+     | [] -> RSatisfied
+     | p :: l0 -> (match l0 with
+                   | [] -> RAlmost p
+                   | _ :: _ -> RInconclusive))
+  | None -> RContradicted
+
+(** val add_decision :
+    ('a1, 'a2) vSOps -> ('a1, 'a2) psol -> pkg0 -> 'a2 -> ('a1, 'a2) psol res **)
+
+let add_decision o ps0 p v =
+  match index_of p ps0.assignments O with
+  | Some old_idx ->
+    (match get p ps0.assignments with
+     | Some a ->
+       (match a.ai with
+        | ADecision (_, _, _) -> Panic PDecisionAlready
+        | ADerivations t0 ->
+          if negb (t_contains o t0 v)
+          then Panic PDecisionNotContained
+          else if negb (Nat.eqb ps0.changed (length ps0.assignments))
+               then Panic PDecisionChangedAssert
+               else let new_idx = ps0.level in
+                    let lvl = S ps0.level in
+                    let a' = { smallest = a.smallest; highest = lvl; derivs =
+                      a.derivs; ai = (ADecision (ps0.next_gidx, v,
+                      (t_exact o v))) }
+                    in
+                    let asg = set p a' ps0.assignments in
+                    Good { next_gidx = (S ps0.next_gidx); level = lvl;
+                    assignments =
+                    (if Nat.eqb new_idx old_idx
+                     then asg
+                     else swap_indices asg new_idx old_idx); queue =
+                    ps0.queue; changed = ps0.changed; backtracked =
+                    ps0.backtracked })
+     | None -> Panic PDecisionNoDerivations)
+  | None -> Panic PDecisionNoDerivations
+
+(** val add_derivation :
+    ('a1, 'a2) vSOps -> ('a1, 'a2) psol -> pkg0 -> nat -> (pkg0 * 'a1 term)
+    list -> ('a1, 'a2) psol res **)
+
+let add_derivation o ps0 p cause cause_terms =
+  bind (req (get p cause_terms) PGetUnwrap) (fun ct ->
+    let t0 = t_negate ct in
+    let gi = ps0.next_gidx in
+    let pa_last = Nat.pred (length ps0.assignments) in
+    (match index_of p ps0.assignments O with
+     | Some idx ->
+       (match get p ps0.assignments with
+        | Some a ->
+          (match a.ai with
+           | ADecision (_, _, _) -> Panic PDerivationAfterDecision
+           | ADerivations t1 ->
+             let t' = t_intersection o t1 t0 in
+             let dd = { d_gidx = gi; d_level = ps0.level; d_cause = cause;
+               d_accum = t' }
+             in
+             let a' = { smallest = a.smallest; highest = ps0.level; derivs =
+               (app a.derivs (dd :: [])); ai = (ADerivations t') }
+             in
+             Good { next_gidx = (S gi); level = ps0.level; assignments =
+             (set p a' ps0.assignments); queue = ps0.queue; changed =
+             (if t_is_positive t'
+              then Nat.min ps0.changed idx
+              else ps0.changed); backtracked = ps0.backtracked })
+        | None ->
+          let dd = { d_gidx = gi; d_level = ps0.level; d_cause = cause;
+            d_accum = t0 }
+          in
+          let a' = { smallest = ps0.level; highest = ps0.level; derivs =
+            (dd :: []); ai = (ADerivations t0) }
+          in
+          Good { next_gidx = (S gi); level = ps0.level; assignments =
+          (app ps0.assignments ((p, a') :: [])); queue = ps0.queue; changed =
+          (if t_is_positive t0
+           then Nat.min ps0.changed pa_last
+           else ps0.changed); backtracked = ps0.backtracked })
+     | None ->
+       let dd = { d_gidx = gi; d_level = ps0.level; d_cause = cause;
+         d_accum = t0 }
+       in
+       let a' = { smallest = ps0.level; highest = ps0.level; derivs =
+         (dd :: []); ai = (ADerivations t0) }
+       in
+       Good { next_gidx = (S gi); level = ps0.level; assignments =
+       (app ps0.assignments ((p, a') :: [])); queue = ps0.queue; changed =
+       (if t_is_positive t0 then Nat.min ps0.changed pa_last else ps0.changed);
+       backtracked = ps0.backtracked }))
+
+(** val pick_candidates : ('a1, 'a2) psol -> (pkg0 * 'a1) list **)
+
+let pick_candidates ps0 =
+  let check_all = Nat.eqb ps0.changed (Nat.pred ps0.level) in
+  flat_map (fun pat ->
+    let (p, a) = pat in
+    if (||) check_all (Nat.eqb a.highest ps0.level)
+    then (match a.ai with
+          | ADecision (_, _, _) -> []
+          | ADerivations t0 ->
+            (match t0 with
+             | Pos s -> (p, s) :: []
+             | Neg _ -> []))
+    else []) (skipn ps0.changed ps0.assignments)
+
+(** val queue_max : (pkg0 * z) list -> z option **)
+
+let queue_max = function
+| [] -> None
+| p :: r ->
+  let (_, z0) = p in Some (fold_left (fun m pz -> Z.max m (snd pz)) r z0)
+
+(** val drop_while_gt : nat -> 'a1 dated list -> 'a1 dated list **)
+
+let rec drop_while_gt l l0 = match l0 with
+| [] -> []
+| dd :: r -> if Nat.ltb l dd.d_level then drop_while_gt l r else l0
+
+(** val backtrack_pa : nat -> ('a1, 'a2) pa -> ('a1, 'a2) pa option res **)
+
+let backtrack_pa l a =
+  if Nat.ltb l a.smallest
+  then Good None
+  else if Nat.leb a.highest l
+       then Good (Some a)
+       else let kept = rev0 (drop_while_gt l (rev0 a.derivs)) in
+            (match rev0 kept with
+             | [] -> Panic PBacktrackEmpty
+             | last0 :: _ ->
+               Good (Some { smallest = a.smallest; highest = last0.d_level;
+                 derivs = kept; ai = (ADerivations last0.d_accum) }))
+
+(** val backtrack_asg :
+    nat -> (pkg0 * ('a1, 'a2) pa) list -> (pkg0 * ('a1, 'a2) pa) list res **)
+
+let rec backtrack_asg l = function
+| [] -> Good []
+| p0 :: r ->
+  let (p, a) = p0 in
+  bind (backtrack_pa l a) (fun a' ->
+    bind (backtrack_asg l r) (fun r' -> Good
+      (match a' with
+       | Some x -> (p, x) :: r'
+       | None -> r')))
+
+(** val ps_backtrack : ('a1, 'a2) psol -> nat -> ('a1, 'a2) psol res **)
+
+let ps_backtrack ps0 l =
+  bind (backtrack_asg l ps0.assignments) (fun asg -> Good { next_gidx =
+    ps0.next_gidx; level = l; assignments = asg; queue = []; changed =
+    (Nat.pred l); backtracked = true })
+
+(** val first_disjoint :
+    ('a1, 'a2) vSOps -> 'a1 dated list -> 'a1 term -> 'a1 dated option **)
+
+let rec first_disjoint o ds start =
+  match ds with
+  | [] -> None
+  | dd :: r ->
+    if t_is_disjoint o dd.d_accum start
+    then Some dd
+    else first_disjoint o r start
+
+(** val satisfier :
+    ('a1, 'a2) vSOps -> ('a1, 'a2) pa -> 'a1 term -> ((nat
+    option * nat) * nat) res **)
+
+let satisfier o a start =
+  match first_disjoint o a.derivs start with
+  | Some dd -> Good (((Some dd.d_cause), dd.d_gidx), dd.d_level)
+  | None ->
+    (match a.ai with
+     | ADecision (gi, _, _) -> Good ((None, gi), a.highest)
+     | ADerivations _ -> Panic PSatisfierUnreachable)
+
+type sat_entry = pkg0 * ((nat option * nat) * nat)
+
+(** val find_satisfier :
+    ('a1, 'a2) vSOps -> (pkg0 * 'a1 term) list -> (pkg0 * ('a1, 'a2) pa) list
+    -> sat_entry list res **)
+
+let rec find_satisfier o ts asg =
+  match ts with
+  | [] -> Good []
+  | p0 :: r ->
+    let (p, t0) = p0 in
+    bind (req (get p asg) PMustExist) (fun a ->
+      bind (satisfier o a (t_negate t0)) (fun s ->
+        bind (find_satisfier o r asg) (fun rest -> Good ((p, s) :: rest))))
+
+(** val max_by_gidx : sat_entry list -> sat_entry option **)
+
+let max_by_gidx m =
+  fold_left (fun acc e ->
+    match acc with
+    | Some b ->
+      if Nat.leb (snd (fst (snd b))) (snd (fst (snd e)))
+      then Some e
+      else Some b
+    | None -> Some e) m None
+
+type search =
+| SDifferent of nat
+| SSame of nat
+
+(** val satisfier_search :
+    ('a1, 'a2) vSOps -> (pkg0 * 'a1 term) list -> ('a1, 'a2) psol -> ('a1,
+    'a2) incompat list -> (pkg0 * search) res **)
+
+let satisfier_search o ts ps0 store0 =
+  bind (find_satisfier o ts ps0.assignments) (fun m ->
+    bind (req (max_by_gidx m) PMustExist) (fun top ->
+      let (sp, p) = top in
+      let (p0, slevel) = p in
+      let (scause, _) = p0 in
+      bind (req (get sp ps0.assignments) PGetUnwrap) (fun spa ->
+        bind
+          (match scause with
+           | Some c ->
+             bind (req (nth_error store0 c) PGetUnwrap) (fun ci ->
+               bind (req (get sp ci.terms) PGetUnwrap) (fun ct -> Good
+                 (t_negate ct)))
+           | None ->
+             (match spa.ai with
+              | ADecision (_, _, t0) -> Good t0
+              | ADerivations _ -> Panic PMustBeDecision)) (fun accum ->
+          bind (req (get sp ts) PGetUnwrap) (fun it ->
+            bind (satisfier o spa (t_intersection o accum (t_negate it)))
+              (fun s2 ->
+              let m' = set sp s2 m in
+              bind (req (max_by_gidx m') PMustExist) (fun top2 ->
+                let prev = Nat.max (snd (snd top2)) (S O) in
+                if Nat.leb slevel prev
+                then bind (req scause PSatisfierCauseNone) (fun c -> Good
+                       (sp, (SSame c)))
+                else Good (sp, (SDifferent prev)))))))))
+
+type ('vS, 'vr) state = { root : pkg0; rootv : 'vr;
+                          index : (pkg0 * nat list) list;
+                          contradicted : (nat * nat) list;
+                          merged : ((pkg0 * pkg0) * nat list) list;
+                          ps : ('vS, 'vr) psol;
+                          store : ('vS, 'vr) incompat list }
+
+(** val upd_ps : ('a1, 'a2) state -> ('a1, 'a2) psol -> ('a1, 'a2) state **)
+
+let upd_ps st p =
+  { root = st.root; rootv = st.rootv; index = st.index; contradicted =
+    st.contradicted; merged = st.merged; ps = p; store = st.store }
+
+(** val state_init : ('a1, 'a2) vSOps -> pkg0 -> 'a2 -> ('a1, 'a2) state **)
+
+let state_init o r v =
+  { root = r; rootv = v; index = ((r, (O :: [])) :: []); contradicted = [];
+    merged = []; ps = ps_empty; store = ((not_root o r v) :: []) }
+
+(** val pair_eqb : (pkg0 * pkg0) -> (pkg0 * pkg0) -> bool **)
+
+let pair_eqb a b =
+  (&&) (N.eqb (fst a) (fst b)) (N.eqb (snd a) (snd b))
+
+(** val get2 :
+    (pkg0 * pkg0) -> ((pkg0 * pkg0) * nat list) list -> nat list option **)
+
+let rec get2 k = function
+| [] -> None
+| p :: r -> let (k', l) = p in if pair_eqb k k' then Some l else get2 k r
+
+(** val set2 :
+    (pkg0 * pkg0) -> nat list -> ((pkg0 * pkg0) * nat list) list ->
+    ((pkg0 * pkg0) * nat list) list **)
+
+let rec set2 k l = function
+| [] -> (k, l) :: []
+| p :: r ->
+  let (k', l') = p in
+  if pair_eqb k k' then (k, l) :: r else (k', l') :: (set2 k l r)
+
+(** val index_get : pkg0 -> (pkg0 * nat list) list -> nat list **)
+
+let index_get p ix =
+  match get p ix with
+  | Some l -> l
+  | None -> []
+
+(** val find_merge :
+    ('a1, 'a2) vSOps -> ('a1, 'a2) incompat -> nat list -> ('a1, 'a2)
+    incompat list -> (nat * ('a1, 'a2) incompat) option res **)
+
+let rec find_merge o cur pasts st =
+  match pasts with
+  | [] -> Good None
+  | past :: r ->
+    bind (req (nth_error st past) PGetUnwrap) (fun pi ->
+      bind (merge_dependents o cur pi) (fun m ->
+        match m with
+        | Some mi -> Good (Some (past, mi))
+        | None -> find_merge o cur r st))
+
+(** val index_push :
+    nat -> (pkg0 * 'a1 term) list -> (pkg0 * nat list) list -> (pkg0 * nat
+    list) list **)
+
+let index_push id ts ix =
+  fold_left (fun ix0 pt ->
+    set (fst pt) (app (index_get (fst pt) ix0) (id :: [])) ix0) ts ix
+
+(** val index_drop :
+    nat -> (pkg0 * 'a1 term) list -> (pkg0 * nat list) list -> (pkg0 * nat
+    list) list **)
+
+let index_drop past ts ix =
+  fold_left (fun ix0 pt ->
+    set (fst pt)
+      (filter (fun i -> negb (Nat.eqb i past)) (index_get (fst pt) ix0)) ix0)
+    ts ix
+
+(** val has_any : ('a1, 'a2) vSOps -> (pkg0 * 'a1 term) list -> bool **)
+
+let has_any o ts =
+  existsb (fun pt -> t_eqb o (snd pt) (t_any o)) ts
+
+(** val merge_incompatibility :
+    ('a1, 'a2) vSOps -> ('a1, 'a2) state -> nat -> ('a1, 'a2) state res **)
+
+let merge_incompatibility o st id =
+  bind (req (nth_error st.store id) PGetUnwrap) (fun cur ->
+    match as_dependency cur with
+    | Some key ->
+      let lookup = match get2 key st.merged with
+                   | Some l -> l
+                   | None -> [] in
+      bind (find_merge o cur lookup st.store) (fun fm ->
+        match fm with
+        | Some p ->
+          let (past, mi) = p in
+          let new0 = length st.store in
+          if has_any o mi.terms
+          then Panic PAnyTerm
+          else Good { root = st.root; rootv = st.rootv; index =
+                 (index_push new0 mi.terms
+                   (index_drop past mi.terms st.index)); contradicted =
+                 st.contradicted; merged =
+                 (set2 key
+                   (map (fun i -> if Nat.eqb i past then new0 else i) lookup)
+                   st.merged); ps = st.ps; store = (app st.store (mi :: [])) }
+        | None ->
+          if has_any o cur.terms
+          then Panic PAnyTerm
+          else Good { root = st.root; rootv = st.rootv; index =
+                 (index_push id cur.terms st.index); contradicted =
+                 st.contradicted; merged =
+                 (set2 key (app lookup (id :: [])) st.merged); ps = st.ps;
+                 store = st.store })
+    | None ->
+      if has_any o cur.terms
+      then Panic PAnyTerm
+      else Good { root = st.root; rootv = st.rootv; index =
+             (index_push id cur.terms st.index); contradicted =
+             st.contradicted; merged = st.merged; ps = st.ps; store =
+             st.store })
+
+(** val alloc :
+    ('a1, 'a2) state -> ('a1, 'a2) incompat -> ('a1, 'a2) state * nat **)
+
+let alloc st i =
+  ({ root = st.root; rootv = st.rootv; index = st.index; contradicted =
+    st.contradicted; merged = st.merged; ps = st.ps; store =
+    (app st.store (i :: [])) }, (length st.store))
+
+(** val add_incompatibility :
+    ('a1, 'a2) vSOps -> ('a1, 'a2) state -> ('a1, 'a2) incompat -> ('a1, 'a2)
+    state res **)
+
+let add_incompatibility o st i =
+  let (st', id) = alloc st i in merge_incompatibility o st' id
+
+(** val merge_range :
+    ('a1, 'a2) vSOps -> ('a1, 'a2) state -> nat list -> ('a1, 'a2) state res **)
+
+let rec merge_range o st = function
+| [] -> Good st
+| id :: r ->
+  bind (merge_incompatibility o st id) (fun st' -> merge_range o st' r)
+
+(** val add_incompatibility_from_dependencies :
+    ('a1, 'a2) vSOps -> ('a1, 'a2) state -> pkg0 -> 'a2 -> (pkg0 * 'a1) list
+    -> (('a1, 'a2) state * (nat * nat)) res **)
+
+let add_incompatibility_from_dependencies o st p v deps =
+  let start = length st.store in
+  let news = map (fun d -> from_dependency o p (o.vs_singleton v) d) deps in
+  let st1 = { root = st.root; rootv = st.rootv; index = st.index;
+    contradicted = st.contradicted; merged = st.merged; ps = st.ps; store =
+    (app st.store news) }
+  in
+  let stop = add start (length news) in
+  bind (merge_range o st1 (seq start (length news))) (fun st2 -> Good (st2,
+    (start, stop)))
+
+(** val add_version :
+    ('a1, 'a2) vSOps -> ('a1, 'a2) psol -> pkg0 -> 'a2 -> (nat * nat) ->
+    ('a1, 'a2) incompat list -> ('a1, 'a2) psol res **)
+
+let add_version o pso p v range0 st =
+  if negb pso.backtracked
+  then add_decision o pso p v
+  else let exact = t_exact o v in
+       let lookup = fun q -> if N.eqb q p then Some exact else term_for pso q
+       in
+       let news =
+         firstn (sub (snd range0) (fst range0)) (skipn (fst range0) st)
+       in
+       if forallb (fun i ->
+            match relation0 o i.terms lookup with
+            | RSatisfied -> false
+            | _ -> true) news
+       then add_decision o pso p v
+       else Good pso
+
+(** val backtrack :
+    ('a1, 'a2) vSOps -> ('a1, 'a2) state -> nat -> bool -> nat -> ('a1, 'a2)
+    state res **)
+
+let backtrack o st inc inc_changed l =
+  bind (ps_backtrack st.ps l) (fun p' ->
+    let st' = { root = st.root; rootv = st.rootv; index = st.index;
+      contradicted = (filter (fun e -> Nat.leb (snd e) l) st.contradicted);
+      merged = st.merged; ps = p'; store = st.store }
+    in
+    if inc_changed then merge_incompatibility o st' inc else Good st')
+
+type ('vS, 'vr) cr_result =
+| CROk of ('vS, 'vr) state * pkg0 * nat
+| CRTerminal of ('vS, 'vr) state * nat
+
+type outcome_err =
+| EFuel
+| EPanic of panic_site
+
+(** val conflict_resolution :
+    ('a1, 'a2) vSOps -> nat -> ('a1, 'a2) state -> nat -> bool -> (('a1, 'a2)
+    cr_result, outcome_err) sum **)
+
+let rec conflict_resolution o fuel st cur cur_changed =
+  match fuel with
+  | O -> Inr EFuel
+  | S fuel' ->
+    (match nth_error st.store cur with
+     | Some ci ->
+       if is_terminal o ci st.root st.rootv
+       then Inl (CRTerminal (st, cur))
+       else (match satisfier_search o ci.terms st.ps st.store with
+             | Good a ->
+               let (p, s) = a in
+               (match s with
+                | SDifferent l ->
+                  (match backtrack o st cur cur_changed l with
+                   | Good st' -> Inl (CROk (st', p, cur))
+                   | Panic s0 -> Inr (EPanic s0))
+                | SSame cause ->
+                  (match nth_error st.store cause with
+                   | Some cj ->
+                     (match prior_cause o cur cause ci.terms cj.terms p with
+                      | Good pc ->
+                        let (st', id) = alloc st pc in
+                        conflict_resolution o fuel' st' id true
+                      | Panic s0 -> Inr (EPanic s0))
+                   | None -> Inr (EPanic PGetUnwrap)))
+             | Panic s -> Inr (EPanic s))
+     | None -> Inr (EPanic PGetUnwrap))
+
+(** val cache_set : nat -> nat -> (nat * nat) list -> (nat * nat) list **)
+
+let cache_set id lvl c =
+  (id, lvl) :: (filter (fun e -> negb (Nat.eqb (fst e) id)) c)
+
+(** val cached : nat -> (nat * nat) list -> bool **)
+
+let cached id c =
+  existsb (fun e -> Nat.eqb (fst e) id) c
+
+(** val upd_cache :
+    ('a1, 'a2) state -> (nat * nat) list -> ('a1, 'a2) state **)
+
+let upd_cache st c =
+  { root = st.root; rootv = st.rootv; index = st.index; contradicted = c;
+    merged = st.merged; ps = st.ps; store = st.store }
+
+(** val scan_incompats :
+    ('a1, 'a2) vSOps -> nat list -> ('a1, 'a2) state -> pkg0 list -> ((('a1,
+    'a2) state * pkg0 list) * nat option) res **)
+
+let rec scan_incompats o ids st buffer =
+  match ids with
+  | [] -> Good ((st, buffer), None)
+  | id :: r ->
+    if cached id st.contradicted
+    then scan_incompats o r st buffer
+    else bind (req (nth_error st.store id) PGetUnwrap) (fun ci ->
+           match relation0 o ci.terms (term_for st.ps) with
+           | RSatisfied -> Good ((st, buffer), (Some id))
+           | RContradicted ->
+             scan_incompats o r
+               (upd_cache st (cache_set id st.ps.level st.contradicted))
+               buffer
+           | RAlmost q ->
+             let buffer' =
+               if existsb (N.eqb q) buffer
+               then buffer
+               else app buffer (q :: [])
+             in
+             bind (add_derivation o st.ps q id ci.terms) (fun p' ->
+               let st' =
+                 upd_cache (upd_ps st p')
+                   (cache_set id p'.level st.contradicted)
+               in
+               scan_incompats o r st' buffer')
+           | RInconclusive -> scan_incompats o r st buffer)
+
+type ('vS, 'vr) up_result =
+| UPOk of ('vS, 'vr) state
+| UPConflict of ('vS, 'vr) state * nat
+
+(** val unit_propagation :
+    ('a1, 'a2) vSOps -> nat -> ('a1, 'a2) state -> pkg0 list -> (('a1, 'a2)
+    up_result, outcome_err) sum **)
+
+let rec unit_propagation o fuel st buffer =
+  match fuel with
+  | O -> Inr EFuel
+  | S fuel' ->
+    (match rev0 buffer with
+     | [] -> Inl (UPOk st)
+     | cur :: rest_rev ->
+       let buffer1 = rev0 rest_rev in
+       (match get cur st.index with
+        | Some ids ->
+          (match scan_incompats o (rev0 ids) st buffer1 with
+           | Good a ->
+             let (p, o0) = a in
+             let (st1, buffer2) = p in
+             (match o0 with
+              | Some conflict ->
+                (match conflict_resolution o fuel' st1 conflict false with
+                 | Inl c ->
+                   (match c with
+                    | CROk (st2, q, root_cause) ->
+                      (match nth_error st2.store root_cause with
+                       | Some rc ->
+                         (match add_derivation o st2.ps q root_cause rc.terms with
+                          | Good p' ->
+                            let st3 =
+                              upd_cache (upd_ps st2 p')
+                                (cache_set root_cause p'.level
+                                  st2.contradicted)
+                            in
+                            unit_propagation o fuel' st3 (q :: [])
+                          | Panic s -> Inr (EPanic s))
+                       | None -> Inr (EPanic PGetUnwrap))
+                    | CRTerminal (st2, id) -> Inl (UPConflict (st2, id)))
+                 | Inr e -> Inr e)
+              | None -> unit_propagation o fuel' st1 buffer2)
+           | Panic s -> Inr (EPanic s))
+        | None -> Inr (EPanic PIndexMissing)))
+
+type ('vS, 'vr) external0 =
+| XNotRoot of pkg0 * 'vr
+| XNoVersions of pkg0 * 'vS
+| XFromDep of pkg0 * 'vS * pkg0 * 'vS
+| XCustom of pkg0 * 'vS * n
+
+type ('vS, 'vr) tree =
+| TExternal of ('vS, 'vr) external0
+| TDerived of (pkg0 * 'vS term) list * nat option * ('vS, 'vr) tree
+   * ('vS, 'vr) tree
+
+(** val tree_dfs :
+    nat -> ('a1, 'a2) incompat list -> nat list -> nat list -> nat list ->
+    (nat list * nat list) option **)
+
+let rec tree_dfs fuel st stack all shared =
+  match fuel with
+  | O -> None
+  | S fuel' ->
+    (match stack with
+     | [] -> Some (all, shared)
+     | i :: rest ->
+       (match nth_error st i with
+        | Some ci ->
+          (match ci.ikind with
+           | KDerived (id1, id2) ->
+             if existsb (Nat.eqb i) all
+             then tree_dfs fuel' st rest all
+                    (if existsb (Nat.eqb i) shared
+                     then shared
+                     else i :: shared)
+             else tree_dfs fuel' st (id2 :: (id1 :: rest)) (i :: all) shared
+           | _ ->
+             tree_dfs fuel' st rest
+               (if existsb (Nat.eqb i) all then all else i :: all) shared)
+        | None -> None))
+
+(** val tree_of :
+    nat -> ('a1, 'a2) incompat list -> nat list -> nat -> ('a1, 'a2) tree
+    option **)
+
+let rec tree_of fuel st shared id =
+  match fuel with
+  | O -> None
+  | S fuel' ->
+    (match nth_error st id with
+     | Some ci ->
+       (match ci.ikind with
+        | KNotRoot (p, v) -> Some (TExternal (XNotRoot (p, v)))
+        | KNoVersions (p, s) -> Some (TExternal (XNoVersions (p, s)))
+        | KFromDep (p, s, q, t0) -> Some (TExternal (XFromDep (p, s, q, t0)))
+        | KDerived (id1, id2) ->
+          (match tree_of fuel' st shared id1 with
+           | Some t1 ->
+             (match tree_of fuel' st shared id2 with
+              | Some t2 ->
+                Some (TDerived (ci.terms,
+                  (if existsb (Nat.eqb id) shared then Some id else None),
+                  t1, t2))
+              | None -> None)
+           | None -> None)
+        | KCustom (p, s, m) -> Some (TExternal (XCustom (p, s, m))))
+     | None -> None)
+
+(** val build_derivation_tree :
+    ('a1, 'a2) incompat list -> nat -> ('a1, 'a2) tree option **)
+
+let build_derivation_tree st id =
+  match tree_dfs
+          (mul (mul (S (S (S (S O)))) (S (length st))) (S (length st))) st
+          (id :: []) [] [] with
+  | Some p -> let (_, shared) = p in tree_of (S (length st)) st shared id
+  | None -> None
+
+type 'vr choose_ans =
+| CSome of 'vr
+| CNone
+| CErr
+
+type 'vS deps_ans =
+| DAvail of (pkg0 * 'vS) list
+| DUnavail of n
+| DErr
+
+type ('vS, 'vr) event =
+| EvCancel of bool
+| EvPrioritize of pkg0 * 'vS * z
+| EvChoose of pkg0 * 'vS * 'vr choose_ans
+| EvDeps of pkg0 * 'vr * 'vS deps_ans
+
+type failure =
+| FNoTerm
+| FIncompatibleVersion
+
+type ('vS, 'vr) outcome =
+| OSolution of (pkg0 * 'vr) list
+| ONoSolution of ('vS, 'vr) tree
+| OErrCancel
+| OErrChoose
+| OErrDeps of pkg0 * 'vr
+| OFailure of failure
+| OPanic of panic_site
+| OOutOfFuel
+| OMismatch of nat * n
+| OPickNotMax of nat * pkg0
+
+(** val do_prioritize :
+    ('a1, 'a2) vSOps -> (pkg0 * 'a1) list -> (pkg0 * z) list -> ('a1, 'a2)
+    event list -> nat -> (((pkg0 * z) list * ('a1, 'a2) event list) * nat,
+    ('a1, 'a2) outcome) sum **)
+
+let rec do_prioritize o cands q tr n0 =
+  match cands with
+  | [] -> Inl ((q, tr), n0)
+  | p0 :: r ->
+    let (p, s) = p0 in
+    (match tr with
+     | [] -> Inr (OMismatch (n0, (Npos XH)))
+     | e :: tr' ->
+       (match e with
+        | EvPrioritize (p', s', prio) ->
+          if (&&) (N.eqb p p') (o.vs_eqb s s')
+          then do_prioritize o r (set p prio q) tr' (S n0)
+          else Inr (OMismatch (n0, (Npos XH)))
+        | _ -> Inr (OMismatch (n0, (Npos XH)))))
+
+(** val extract_solution : ('a1, 'a2) psol -> (pkg0 * 'a2) list res **)
+
+let extract_solution p =
+  fold_right (fun pat acc ->
+    let (q, a) = pat in
+    bind acc (fun l ->
+      match a.ai with
+      | ADecision (_, v, _) -> Good ((q, v) :: l)
+      | ADerivations _ -> Panic PExtractDerivation)) (Good [])
+    (firstn p.level p.assignments)
+
+(** val added_has :
+    ('a1 -> 'a1 -> bool) -> (pkg0 * 'a1) list -> pkg0 -> 'a1 -> bool **)
+
+let added_has veqb0 added p v =
+  existsb (fun e -> (&&) (N.eqb (fst e) p) (veqb0 (snd e) v)) added
+
+type 'vS pick_info = ((pkg0 * 'vS) list * (pkg0 * z) list) * nat
+
+(** val undecided_positive : ('a1, 'a2) psol -> (pkg0 * 'a1) list **)
+
+let undecided_positive p =
+  flat_map (fun pat ->
+    let (q, a) = pat in
+    (match a.ai with
+     | ADecision (_, _, _) -> []
+     | ADerivations t0 -> (match t0 with
+                           | Pos s -> (q, s) :: []
+                           | Neg _ -> []))) p.assignments
+
+type ('vS, 'vr) result =
+  (('vS, 'vr) outcome * ('vS, 'vr) state) * 'vS pick_info list
+
+(** val res_out :
+    'a1 pick_info list -> 'a3 res -> ('a3 -> ('a1, 'a2) result) -> ('a1, 'a2)
+    state -> ('a1, 'a2) result **)
+
+let res_out log r k st =
+  match r with
+  | Good a -> k a
+  | Panic s -> (((OPanic s), st), log)
+
+(** val resolve_loop :
+    ('a1, 'a2) vSOps -> ('a2 -> 'a2 -> bool) -> nat -> ('a1, 'a2) state ->
+    pkg0 -> (pkg0 * 'a2) list -> ('a1, 'a2) event list -> nat -> 'a1
+    pick_info list -> ('a1, 'a2) result **)
+
+let rec resolve_loop o veqb0 fuel st next added tr n0 log =
+  match fuel with
+  | O -> ((OOutOfFuel, st), log)
+  | S fuel' ->
+    (match tr with
+     | [] -> (((OMismatch (n0, (Npos (XI (XO XH))))), st), log)
+     | e :: tr1 ->
+       (match e with
+        | EvCancel ok ->
+          if negb ok
+          then ((OErrCancel, st), log)
+          else (match unit_propagation o fuel st (next :: []) with
+                | Inl u ->
+                  (match u with
+                   | UPOk st1 ->
+                     (match do_prioritize o (pick_candidates st1.ps)
+                              st1.ps.queue tr1 (S n0) with
+                      | Inl p ->
+                        let (p0, n2) = p in
+                        let (q, tr2) = p0 in
+                        let p1 = st1.ps in
+                        let log1 =
+                          app log ((((undecided_positive p1), q), n2) :: [])
+                        in
+                        let with_queue = fun q' -> { next_gidx =
+                          p1.next_gidx; level = p1.level; assignments =
+                          p1.assignments; queue = q'; changed =
+                          (length p1.assignments); backtracked =
+                          p1.backtracked }
+                        in
+                        (match queue_max q with
+                         | Some mx ->
+                           (match tr2 with
+                            | [] ->
+                              (((OMismatch (n2, (Npos (XO (XO XH))))), st1),
+                                log1)
+                            | e0 :: tr3 ->
+                              (match e0 with
+                               | EvChoose (p2, s, ans) ->
+                                 (match get p2 q with
+                                  | Some prio ->
+                                    if negb (Z.eqb prio mx)
+                                    then (((OPickNotMax (n2, p2)), st1), log1)
+                                    else let st2 =
+                                           upd_ps st1
+                                             (with_queue (remove p2 q))
+                                         in
+                                         (match term_for st2.ps p2 with
+                                          | Some ti ->
+                                            (match ti with
+                                             | Pos cur_set ->
+                                               if negb (o.vs_eqb s cur_set)
+                                               then (((OMismatch (n2, (Npos
+                                                      (XO XH)))), st2), log1)
+                                               else (match ans with
+                                                     | CSome v ->
+                                                       if negb
+                                                            (t_contains o ti
+                                                              v)
+                                                       then (((OFailure
+                                                              FIncompatibleVersion),
+                                                              st2), log1)
+                                                       else if added_has
+                                                                 veqb0 added
+                                                                 p2 v
+                                                            then res_out log1
+                                                                   (add_decision
+                                                                    o st2.ps
+                                                                    p2 v)
+                                                                   (fun p' ->
+                                                                   resolve_loop
+                                                                    o veqb0
+                                                                    fuel'
+                                                                    (upd_ps
+                                                                    st2 p')
+                                                                    p2 added
+                                                                    tr3 (S
+                                                                    n2) log1)
+                                                                   st2
+                                                            else let added' =
+                                                                   (p2,
+                                                                   v) :: added
+                                                                 in
+                                                                 (match tr3 with
+                                                                  | [] ->
+                                                                    (((OMismatch
+                                                                    ((S n2),
+                                                                    (Npos (XI
+                                                                    XH)))),
+                                                                    st2),
+                                                                    log1)
+                                                                  | e1 :: tr4 ->
+                                                                    (match e1 with
+                                                                    | EvDeps (
+                                                                    p', v',
+                                                                    dans) ->
+                                                                    if 
+                                                                    negb
+                                                                    ((&&)
+                                                                    (N.eqb p2
+                                                                    p')
+                                                                    (veqb0 v
+                                                                    v'))
+                                                                    then 
+                                                                    (((OMismatch
+                                                                    ((S n2),
+                                                                    (Npos (XI
+                                                                    XH)))),
+                                                                    st2),
+                                                                    log1)
+                                                                    else 
+                                                                    (match dans with
+                                                                    | DAvail deps ->
+                                                                    res_out
+                                                                    log1
+                                                                    (add_incompatibility_from_dependencies
+                                                                    o st2 p2
+                                                                    v deps)
+                                                                    (fun pat ->
+                                                                    let (
+                                                                    st3,
+                                                                    range0) =
+                                                                    pat
+                                                                    in
+                                                                    res_out
+                                                                    log1
+                                                                    (add_version
+                                                                    o st3.ps
+                                                                    p2 v
+                                                                    range0
+                                                                    st3.store)
+                                                                    (fun p'0 ->
+                                                                    resolve_loop
+                                                                    o veqb0
+                                                                    fuel'
+                                                                    (upd_ps
+                                                                    st3 p'0)
+                                                                    p2 added'
+                                                                    tr4 (S (S
+                                                                    n2)) log1)
+                                                                    st3) st2
+                                                                    | DUnavail m ->
+                                                                    res_out
+                                                                    log1
+                                                                    (add_incompatibility
+                                                                    o st2
+                                                                    (custom_version
+                                                                    o p2 v m))
+                                                                    (fun st3 ->
+                                                                    resolve_loop
+                                                                    o veqb0
+                                                                    fuel' st3
+                                                                    p2 added'
+                                                                    tr4 (S (S
+                                                                    n2)) log1)
+                                                                    st2
+                                                                    | DErr ->
+                                                                    (((OErrDeps
+                                                                    (p2, v)),
+                                                                    st2),
+                                                                    log1))
+                                                                    | _ ->
+                                                                    (((OMismatch
+                                                                    ((S n2),
+                                                                    (Npos (XI
+                                                                    XH)))),
+                                                                    st2),
+                                                                    log1)))
+                                                     | CNone ->
+                                                       (match no_versions p2
+                                                                ti with
+                                                        | Some inc ->
+                                                          res_out log1
+                                                            (add_incompatibility
+                                                              o st2 inc)
+                                                            (fun st3 ->
+                                                            resolve_loop o
+                                                              veqb0 fuel' st3
+                                                              p2 added tr3 (S
+                                                              n2) log1) st2
+                                                        | None ->
+                                                          (((OPanic
+                                                            PNoVersionsNegative),
+                                                            st2), log1))
+                                                     | CErr ->
+                                                       ((OErrChoose, st2),
+                                                         log1))
+                                             | Neg _ ->
+                                               (((OPanic PUnwrapPositive),
+                                                 st2), log1))
+                                          | None ->
+                                            (((OFailure FNoTerm), st2), log1))
+                                  | None ->
+                                    (((OPickNotMax (n2, p2)), st1), log1))
+                               | _ ->
+                                 (((OMismatch (n2, (Npos (XO (XO XH))))),
+                                   st1), log1)))
+                         | None ->
+                           res_out log1 (extract_solution p1) (fun sol ->
+                             (((OSolution sol), (upd_ps st1 (with_queue q))),
+                             log1)) st1)
+                      | Inr o0 -> ((o0, st1), log))
+                   | UPConflict (st1, id) ->
+                     (match build_derivation_tree st1.store id with
+                      | Some t0 -> (((ONoSolution t0), st1), log)
+                      | None -> (((OPanic PTreeMissing), st1), log)))
+                | Inr o0 ->
+                  (match o0 with
+                   | EFuel -> ((OOutOfFuel, st), log)
+                   | EPanic s -> (((OPanic s), st), log)))
+        | _ -> (((OMismatch (n0, (Npos (XI (XO XH))))), st), log)))
+
+(** val resolve :
+    ('a1, 'a2) vSOps -> ('a2 -> 'a2 -> bool) -> nat -> pkg0 -> 'a2 -> ('a1,
+    'a2) event list -> ('a1, 'a2) result **)
+
+let resolve o veqb0 fuel r v tr =
+  resolve_loop o veqb0 fuel (state_init o r v) r [] tr O []
